@@ -44,6 +44,7 @@ META = {
 LOCK_WHAT = {'lock-double-acquire': "pylocker let two workers hold the lock and the release of this one was refused: its row was not flushed "
                                     "while the lock was held (regression of 1d8733c)",
              'lock-gave-up-early': 'the lock was given up before the 10 s time-out',
+             'stale-lock-takeover': 'the work package took over the stale lock of a dead process (pylocker acquire code 2) and wrote nothing',
              'lock-timeout': 'after the 10 s lock time-out the row is silently dropped (fd is None)'}
 
 
@@ -61,7 +62,7 @@ def analyse(ctx, run, bools):
     tasks, ok = run.tasks, run.ok_tasks
     header, rows, _ = mc.parse_result(run.result_text or '\n')
     part = f'{run.mode}-runs'
-    if run.mode == 'pool' and len(tasks) != iterations:
+    if run.mode in ('pool', 'stalelock') and len(tasks) != iterations:
         ctx.violate('property', 'taskcount', f'{len(tasks)} work packages were executed for ITERATIONS = {iterations}',
                     inp=_inp(run), expected=iterations, observed=len(tasks))
     # --- numpy calls vs modelled dispatch (one term per distinct observed call sequence)
@@ -102,6 +103,8 @@ def analyse(ctx, run, bools):
                         inp=_inp(run), expected='one row per successful work package', observed=r['line'][:300])
         for t in missing:
             why = mc.lock_loss_reason(t)
+            if why is None and (t.get('lock') or {}).get('code') == '2':
+                why = 'stale-lock-takeover'
             ctx.violate('property', f'rowcount:{why or "lost-row"}',
                         f'a successful work package left no row in the result file ({LOCK_WHAT.get(why, "lock layer reported a clean append")}): '
                         f'{len(rows)} rows for {len(ok)} successful iterations',
@@ -163,6 +166,16 @@ def lock_model_check(ctx, run, rows, ok, bools):
         ctx.note(f'forced double acquisition: {len(rows)} rows for {len(ok)} finished work packages, roles {sorted(roles)}')
 
 
+def stale_lock_check(ctx, run, rows, ok, bools):
+    """run into a directory holding the lock of a dead process (corpus): rows vs the lock model with a take-over"""
+    codes = [t['lock']['code'] for t in run.tasks if t.get('lock')]
+    if '2' not in codes:
+        ctx.note(f'stale lock: no work package reported a take-over (acquire codes {sorted(set(codes))})')
+    bools.append((f'Nat.eqb (List.length (file (lrun (lstale 7) (stale_serial_schedule {len(ok)}%nat)))) {len(rows)}%nat', lambda: ctx.violate(
+        'corr', 'lockmodel:stale-lock', 'the number of rows after taking over a stale lock is not what the lock model predicts',
+        inp=_inp(run), expected=len(ok), observed=len(rows))))
+
+
 def pool_specs(ctx):
     rnd = ctx.rng
     if ctx.quick:
@@ -180,6 +193,8 @@ def correspondence(ctx, proofs_ok=True):
         rows, ok = analyse(ctx, run, bools)
         if run.mode == 'lockrace':
             lock_model_check(ctx, run, rows, ok, bools)
+        if run.mode == 'stalelock':
+            stale_lock_check(ctx, run, rows, ok, bools)
     failing = fw.kernel_bools(ctx, 'c13', REQ, [b for b, _ in bools], open_scope='string_scope')
     for i in failing:
         bools[i][1]()
